@@ -1,1 +1,380 @@
-fn main() {}
+//! gen_runner: runs `device_driver_generation::transform_*` in-process on JSON-lines cases and reports
+//! status / hashes / pretty output / MIR debug print / structural facts.  Protocol: see FACTS.md.
+
+use std::cell::RefCell;
+use std::io::{BufRead, BufWriter, Read, Write};
+use std::panic::{catch_unwind, AssertUnwindSafe};
+
+use proc_macro2::{TokenStream, TokenTree};
+use serde_json::{json, Map, Value};
+
+mod facts;
+
+const STACK_BYTES: usize = 512 << 20;
+
+thread_local! {
+    static PANIC_LOC: RefCell<Option<String>> = const { RefCell::new(None) };
+}
+
+fn payload_string(p: Box<dyn std::any::Any + Send>) -> String {
+    if let Some(s) = p.downcast_ref::<&str>() {
+        (*s).to_string()
+    } else if let Some(s) = p.downcast_ref::<String>() {
+        s.clone()
+    } else {
+        "<non-string panic payload>".to_string()
+    }
+}
+
+/// Runs `f` under catch_unwind; Err = (payload string, location if known).
+fn guarded<T>(f: impl FnOnce() -> T) -> Result<T, (String, Option<String>)> {
+    PANIC_LOC.with(|l| *l.borrow_mut() = None);
+    match catch_unwind(AssertUnwindSafe(f)) {
+        Ok(v) => Ok(v),
+        Err(p) => {
+            let loc = PANIC_LOC.with(|l| l.borrow_mut().take());
+            Err((payload_string(p), loc))
+        }
+    }
+}
+
+fn fnv1a64(bytes: &[u8]) -> u64 {
+    let mut h: u64 = 0xcbf29ce484222325;
+    for b in bytes {
+        h ^= *b as u64;
+        h = h.wrapping_mul(0x100000001b3);
+    }
+    h
+}
+
+/// If `tt` starts with `[::] core|std :: compile_error ! <group>` returns (message, tokens consumed).
+fn match_compile_error(tt: &[TokenTree]) -> Option<(String, usize)> {
+    fn is_p(t: Option<&TokenTree>, c: char) -> bool {
+        matches!(t, Some(TokenTree::Punct(p)) if p.as_char() == c)
+    }
+    fn is_i(t: Option<&TokenTree>, names: &[&str]) -> bool {
+        matches!(t, Some(TokenTree::Ident(i)) if names.iter().any(|n| i == n))
+    }
+    let mut i = 0;
+    if is_p(tt.get(i), ':') && is_p(tt.get(i + 1), ':') {
+        i += 2;
+    }
+    if is_i(tt.get(i), &["core", "std"]) && is_p(tt.get(i + 1), ':') && is_p(tt.get(i + 2), ':') {
+        i += 3;
+    }
+    if !is_i(tt.get(i), &["compile_error"]) || !is_p(tt.get(i + 1), '!') {
+        return None;
+    }
+    i += 2;
+    let Some(TokenTree::Group(g)) = tt.get(i) else {
+        return None;
+    };
+    let msg = match syn::parse2::<syn::LitStr>(g.stream()) {
+        Ok(l) => l.value(),
+        Err(_) => g.stream().to_string(),
+    };
+    Some((msg, i + 1))
+}
+
+/// Some(messages, other_tokens_present) iff the stream begins with a compile_error! invocation.
+fn compile_errors(ts: &TokenStream) -> Option<(Vec<String>, bool)> {
+    let tt: Vec<TokenTree> = ts.clone().into_iter().collect();
+    match_compile_error(&tt)?;
+    let mut msgs = Vec::new();
+    let mut other = false;
+    let mut i = 0;
+    while i < tt.len() {
+        if let Some((m, n)) = match_compile_error(&tt[i..]) {
+            msgs.push(m);
+            i += n;
+        } else {
+            if !matches!(&tt[i], TokenTree::Punct(p) if p.as_char() == ';') {
+                other = true;
+            }
+            i += 1;
+        }
+    }
+    Some((msgs, other))
+}
+
+fn syn_err_string(e: &syn::Error) -> String {
+    e.clone().into_iter().map(|e| e.to_string()).collect::<Vec<_>>().join(" | ")
+}
+
+fn wants(case: &Value) -> Vec<String> {
+    match case.get("want").and_then(|w| w.as_array()) {
+        Some(a) => a.iter().filter_map(|v| v.as_str().map(|s| s.to_string())).collect(),
+        None => vec!["facts".to_string()],
+    }
+}
+
+fn mir_string(syntax: &str, text: &str) -> String {
+    use device_driver_generation as g;
+    let r = guarded(|| match syntax {
+        "dsl" => match syn::parse_str::<TokenStream>(text) {
+            Err(e) => format!("ERR: DSL-LEX: {e}"),
+            Ok(ts) => match g::_private_transform_dsl_mir(ts) {
+                Ok(m) => format!("{m:#?}"),
+                Err(e) => format!("ERR: {}", syn_err_string(&e)),
+            },
+        },
+        "json" => match g::_private_transform_json_mir(text) {
+            Ok(m) => format!("{m:#?}"),
+            Err(e) => format!("ERR: {e:#}"),
+        },
+        "yaml" => match g::_private_transform_yaml_mir(text) {
+            Ok(m) => format!("{m:#?}"),
+            Err(e) => format!("ERR: {e:#}"),
+        },
+        "toml" => match g::_private_transform_toml_mir(text) {
+            Ok(m) => format!("{m:#?}"),
+            Err(e) => format!("ERR: {e:#}"),
+        },
+        other => format!("ERR: BAD-INPUT: unknown syntax {other:?}"),
+    });
+    match r {
+        Ok(s) => s,
+        Err((p, loc)) => match loc {
+            Some(l) => format!("PANIC: {p} @ {l}"),
+            None => format!("PANIC: {p}"),
+        },
+    }
+}
+
+fn bad_input(id: Value, msg: String) -> Value {
+    json!({"id": id, "status": "error", "message": format!("BAD-INPUT: {msg}"),
+           "parse_ok": Value::Null, "tokens_hash": Value::Null})
+}
+
+fn process_case(case: &Value) -> Value {
+    use device_driver_generation as g;
+
+    let id = case.get("id").cloned().unwrap_or(Value::Null);
+    let Some(syntax) = case.get("syntax").and_then(|v| v.as_str()) else {
+        return bad_input(id, "missing \"syntax\"".into());
+    };
+    let Some(text) = case.get("text").and_then(|v| v.as_str()) else {
+        return bad_input(id, "missing \"text\"".into());
+    };
+    let name = case.get("name").and_then(|v| v.as_str()).unwrap_or("Dev");
+    if !matches!(syntax, "dsl" | "json" | "yaml" | "toml") {
+        return bad_input(id, format!("unknown syntax {syntax:?}"));
+    }
+    let want = wants(case);
+    let w = |k: &str| want.iter().any(|x| x == k);
+
+    let mut out = Map::new();
+    out.insert("id".into(), id);
+    out.insert("message".into(), Value::Null);
+    out.insert("parse_ok".into(), Value::Null);
+    out.insert("tokens_hash".into(), Value::Null);
+
+    if w("mir") {
+        out.insert("mir".into(), json!(mir_string(syntax, text)));
+    }
+
+    // ---- run the generator
+    let generated: Result<Result<TokenStream, String>, (String, Option<String>)> = guarded(|| match syntax {
+        "dsl" => match syn::parse_str::<TokenStream>(text) {
+            Ok(ts) => Ok(g::transform_dsl(ts, name)),
+            Err(e) => Err(format!("DSL-LEX: {e}")),
+        },
+        "json" => Ok(g::transform_json(text, name)),
+        "yaml" => Ok(g::transform_yaml(text, name)),
+        _ => Ok(g::transform_toml(text, name)),
+    });
+
+    let tokens = match generated {
+        Err((payload, loc)) => {
+            out.insert("status".into(), json!("panic"));
+            out.insert("message".into(), json!(payload));
+            out.insert("panic_location".into(), json!(loc));
+            return Value::Object(out);
+        }
+        Ok(Err(lex)) => {
+            out.insert("status".into(), json!("error"));
+            out.insert("message".into(), json!(lex));
+            return Value::Object(out);
+        }
+        Ok(Ok(ts)) => ts,
+    };
+
+    let token_string = tokens.to_string();
+    out.insert("tokens_hash".into(), json!(format!("{:016x}", fnv1a64(token_string.as_bytes()))));
+
+    if let Some((msgs, other)) = compile_errors(&tokens) {
+        out.insert("status".into(), json!("error"));
+        out.insert("message".into(), json!(msgs.join(" | ")));
+        if other {
+            out.insert("message_note".into(), json!("output contains tokens besides compile_error! invocations"));
+        }
+        if w("tokens") {
+            out.insert("tokens".into(), json!(token_string));
+        }
+        return Value::Object(out);
+    }
+
+    out.insert("status".into(), json!("ok"));
+    if w("tokens") {
+        out.insert("tokens".into(), json!(token_string));
+    }
+    drop(token_string);
+
+    let file = match guarded(|| syn::parse2::<syn::File>(tokens)) {
+        Ok(Ok(f)) => {
+            out.insert("parse_ok".into(), json!(true));
+            f
+        }
+        Ok(Err(e)) => {
+            out.insert("parse_ok".into(), json!(false));
+            out.insert("parse_error".into(), json!(syn_err_string(&e)));
+            return Value::Object(out);
+        }
+        Err((p, _)) => {
+            out.insert("parse_ok".into(), json!(false));
+            out.insert("parse_error".into(), json!(format!("syn panicked: {p}")));
+            return Value::Object(out);
+        }
+    };
+
+    if w("pretty") {
+        match guarded(|| prettyplease::unparse(&file)) {
+            Ok(s) => out.insert("pretty".into(), json!(s)),
+            Err((p, _)) => out.insert("pretty".into(), json!(format!("PANIC in prettyplease: {p}"))),
+        };
+    }
+
+    if w("facts") {
+        match guarded(|| facts::extract(&file)) {
+            Ok((facts, warnings)) => {
+                out.insert("facts".into(), facts);
+                out.insert("facts_warnings".into(), json!(warnings));
+            }
+            Err((p, loc)) => {
+                out.insert("facts".into(), Value::Null);
+                out.insert(
+                    "facts_warnings".into(),
+                    json!([format!("facts extraction panicked: {p} @ {}", loc.unwrap_or_default())]),
+                );
+            }
+        }
+    }
+
+    Value::Object(out)
+}
+
+fn process_line(line: &str) -> Value {
+    let case: Value = match serde_json::from_str(line) {
+        Ok(v) => v,
+        Err(e) => return bad_input(Value::Null, format!("input line is not JSON: {e}")),
+    };
+    let id = case.get("id").cloned().unwrap_or(Value::Null);
+    match guarded(|| process_case(&case)) {
+        Ok(v) => v,
+        // Only reachable through a bug in this runner (every generator call is guarded separately).
+        Err((p, loc)) => json!({"id": id, "status": "panic", "message": format!("RUNNER: {p}"),
+                                "panic_location": loc, "parse_ok": Value::Null, "tokens_hash": Value::Null}),
+    }
+}
+
+fn on_big_stack<T: Send + 'static>(f: impl FnOnce() -> T + Send + 'static) -> T {
+    std::thread::Builder::new()
+        .name("gen_runner-worker".into())
+        .stack_size(STACK_BYTES)
+        .spawn(f)
+        .expect("spawn worker")
+        .join()
+        .expect("worker thread died")
+}
+
+fn usage() -> ! {
+    eprintln!(
+        "usage: gen_runner <cases.jsonl | ->\n       gen_runner --one <dsl|json|yaml|toml> <file> <name> [facts,pretty,tokens,mir]\n       gen_runner --facts <file.rs>      (facts of an arbitrary Rust source file, for debugging)"
+    );
+    std::process::exit(2)
+}
+
+fn main() {
+    std::panic::set_hook(Box::new(|info| {
+        let loc = info.location().map(|l| format!("{}:{}:{}", l.file(), l.line(), l.column()));
+        PANIC_LOC.with(|l| *l.borrow_mut() = loc);
+    }));
+
+    let args: Vec<String> = std::env::args().skip(1).collect();
+    if args.first().map(|s| s.as_str()) == Some("--one") {
+        if args.len() < 4 {
+            usage();
+        }
+        let text = match std::fs::read_to_string(&args[2]) {
+            Ok(t) => t,
+            Err(e) => {
+                eprintln!("gen_runner: cannot read {}: {e}", args[2]);
+                std::process::exit(2)
+            }
+        };
+        let want: Vec<String> = match args.get(4) {
+            Some(w) => w.split(',').map(|s| s.trim().to_string()).filter(|s| !s.is_empty()).collect(),
+            None => vec!["facts".into()],
+        };
+        let case = json!({"id": args[2], "syntax": args[1], "text": text, "name": args[3], "want": want});
+        let res = on_big_stack(move || process_line(&case.to_string()));
+        println!("{res}");
+        return;
+    }
+
+    if args.first().map(|s| s.as_str()) == Some("--facts") {
+        if args.len() != 2 {
+            usage();
+        }
+        let text = match std::fs::read_to_string(&args[1]) {
+            Ok(t) => t,
+            Err(e) => {
+                eprintln!("gen_runner: cannot read {}: {e}", args[1]);
+                std::process::exit(2)
+            }
+        };
+        let res = on_big_stack(move || match syn::parse_file(&text) {
+            Err(e) => json!({"parse_ok": false, "parse_error": syn_err_string(&e)}),
+            Ok(file) => match guarded(|| facts::extract(&file)) {
+                Ok((f, w)) => json!({"parse_ok": true, "facts": f, "facts_warnings": w}),
+                Err((p, loc)) => json!({"parse_ok": true, "facts": Value::Null,
+                    "facts_warnings": [format!("facts extraction panicked: {p} @ {}", loc.unwrap_or_default())]}),
+            },
+        });
+        println!("{res}");
+        return;
+    }
+
+    if args.len() != 1 {
+        usage();
+    }
+    let input: Box<dyn Read + Send> = if args[0] == "-" {
+        Box::new(std::io::stdin())
+    } else {
+        match std::fs::File::open(&args[0]) {
+            Ok(f) => Box::new(f),
+            Err(e) => {
+                eprintln!("gen_runner: cannot open {}: {e}", args[0]);
+                std::process::exit(2)
+            }
+        }
+    };
+
+    on_big_stack(move || {
+        let reader = std::io::BufReader::new(input);
+        let stdout = std::io::stdout();
+        let mut w = BufWriter::with_capacity(1 << 16, stdout.lock());
+        for line in reader.lines() {
+            let res = match line {
+                Ok(l) => process_line(&l),
+                Err(e) => bad_input(Value::Null, format!("cannot read input line: {e}")),
+            };
+            // One line per case, flushed per case so that the output of all cases before a process-killing
+            // stack overflow is already out.
+            let _ = serde_json::to_writer(&mut w, &res);
+            let _ = w.write_all(b"\n");
+            let _ = w.flush();
+        }
+        let _ = w.flush();
+    });
+}
